@@ -4,6 +4,7 @@ import (
 	"encoding/json"
 	"fmt"
 	"hash/fnv"
+	"log"
 	"math/rand"
 	"os"
 	"sort"
@@ -91,8 +92,9 @@ func (s *stats) note(l Layout, merged bool) {
 }
 
 type runner struct {
-	c  *core.Ctx
-	st *stats
+	c   *core.Ctx
+	st  *stats
+	sem chan struct{} // bounds the number of real indexes open at a time
 }
 
 func hash64(s string) int64 {
@@ -166,7 +168,7 @@ type gq struct {
 	n    int
 }
 
-func (r *runner) engineAQuery(cfg string, tlcWorkers int, expectViolations bool) error {
+func (r *runner) engineAQuery(cfg string, tlcWorkers int) error {
 	c := r.c
 	groups := map[string]*qgroup{}
 	nstates := 0
@@ -211,9 +213,6 @@ func (r *runner) engineAQuery(cfg string, tlcWorkers int, expectViolations bool)
 		return fmt.Errorf("NestedQuery/%s dump: %v", cfg, err)
 	}
 	if res == nil || !res.OK {
-		if res != nil && res.Violated != "" && expectViolations {
-			// handled by the caller (gap configurations carry no invariant)
-		}
 		txt := ""
 		if res != nil {
 			txt = res.ErrorText
@@ -238,7 +237,7 @@ func (r *runner) engineAQuery(cfg string, tlcWorkers int, expectViolations bool)
 	}
 	sort.Strings(keys)
 	var wg sync.WaitGroup
-	sem := make(chan struct{}, workers)
+	sem := r.sem
 	var sampled sync.Once
 	for _, gk := range keys {
 		g := groups[gk]
@@ -259,8 +258,7 @@ func (r *runner) engineAQuery(cfg string, tlcWorkers int, expectViolations bool)
 				c.Inconclusive("engine A index build: " + err.Error())
 				return
 			}
-			defer real.Close()
-			defer os.RemoveAll(real.Dir)
+			defer func() { real.Close(); os.RemoveAll(real.Dir) }()
 			merged := len(cs.Steps) > 0 && cs.Steps[len(cs.Steps)-1].Merge
 			r.checkIndexLevel(real, final, cs, "core", merged)
 			qks := make([]string, 0, len(g.queries))
@@ -382,7 +380,7 @@ func (r *runner) engineAHistory(cfg string, tlcWorkers int) error {
 	}
 	c.Logf("model NestedIndex/%s: %d histories (%d distinct states), %.1fs", cfg, len(cases), res.Distinct, res.Wall.Seconds())
 	var wg sync.WaitGroup
-	sem := make(chan struct{}, workers)
+	sem := r.sem
 	for i := range cases {
 		hc := cases[i]
 		wg.Add(1)
@@ -397,8 +395,7 @@ func (r *runner) engineAHistory(cfg string, tlcWorkers int) error {
 				c.Inconclusive("engine A history replay: " + err.Error())
 				return
 			}
-			defer real.Close()
-			defer os.RemoveAll(real.Dir)
+			defer func() { real.Close(); os.RemoveAll(real.Dir) }()
 			final := Final(hc.steps)
 			if len(final) != hc.dc || len(hc.live) != hc.dc {
 				c.Inconclusive(fmt.Sprintf("history replay bookkeeping: model dc=%d, harness final=%d", hc.dc, len(final)))
@@ -497,7 +494,7 @@ func (r *runner) engineB(nIndexes, qPerIndex int, names Naming, tag string, risk
 	var mu sync.Mutex
 	var recs []brec
 	var wg sync.WaitGroup
-	sem := make(chan struct{}, workers)
+	sem := r.sem
 	for i := 0; i < nIndexes; i++ {
 		wg.Add(1)
 		sem <- struct{}{}
@@ -525,8 +522,7 @@ func (r *runner) engineB(nIndexes, qPerIndex int, names Naming, tag string, risk
 				c.Inconclusive("engine B index build: " + err.Error())
 				return
 			}
-			defer real.Close()
-			defer os.RemoveAll(real.Dir)
+			defer func() { real.Close(); os.RemoveAll(real.Dir) }()
 			merged := cs.Steps[len(cs.Steps)-1].Merge
 			r.checkIndexLevel(real, final, cs, "core", merged)
 			dc, _ := real.DocCount()
@@ -586,19 +582,25 @@ func (r *runner) judge(recs []brec, maxFail int, extra ...string) error {
 	if len(recs) == 0 {
 		return nil
 	}
-	list := make([]any, len(recs))
+	header := map[string]any{"header": 1}
+	list := make([]any, 0, len(recs)+1)
+	list = append(list, header)
 	for i := range recs {
-		list[i] = recs[i].rec
+		list = append(list, recs[i].rec)
 		b, _ := json.Marshal(recs[i].rec)
 		c.Distinct("b|" + string(b))
 	}
-	bad, err := c.JudgeRecords("JudgeNested", "JudgeNested.cfg", list, maxFail, core.Timeout(20*time.Minute))
+	bad1, err := c.JudgeRecords("JudgeNested", "JudgeNested.cfg", list, maxFail, core.Timeout(20*time.Minute))
 	if err != nil {
 		return fmt.Errorf("judge: %v", err)
 	}
 	c.Traces(1)
-	if len(bad) == 0 {
+	if len(bad1) == 0 {
 		return nil
+	}
+	bad := map[int]string{}
+	for i, inv := range bad1 {
+		bad[i-1] = inv
 	}
 	// label: does the as-coded model explain the rejected observations?
 	idxs := make([]int, 0, len(bad))
@@ -606,13 +608,17 @@ func (r *runner) judge(recs []brec, maxFail int, extra ...string) error {
 		idxs = append(idxs, i)
 	}
 	sort.Ints(idxs)
-	var sub []any
+	sub := []any{header}
 	for _, i := range idxs {
 		sub = append(sub, recs[i].rec)
 	}
-	coded, err := c.JudgeRecords("JudgeNested", "JudgeNested_coded.cfg", sub, len(sub)+1, core.Timeout(10*time.Minute))
+	coded1, err := c.JudgeRecords("JudgeNested", "JudgeNested_coded.cfg", sub, len(sub)+1, core.Timeout(10*time.Minute))
 	if err != nil {
 		return fmt.Errorf("judge (as-coded labelling): %v", err)
+	}
+	coded := map[int]string{}
+	for i, inv := range coded1 {
+		coded[i-1] = inv
 	}
 	for k, i := range idxs {
 		inv := bad[i]
@@ -646,8 +652,26 @@ func split(recs []brec) (coreRecs, gapRecs []brec) {
 	return
 }
 
+// logCounter swallows what bleve writes to the standard logger (file
+// removal races of the persister/merger are reported there; they are the
+// subject of C12) and counts the lines.
+type logCounter struct {
+	mu sync.Mutex
+	n  int
+}
+
+func (l *logCounter) Write(p []byte) (int, error) {
+	l.mu.Lock()
+	l.n++
+	l.mu.Unlock()
+	return len(p), nil
+}
+
 func run(c *core.Ctx) error {
-	r := &runner{c: c, st: &stats{layouts: map[string]int{}, segsSeen: map[int]int{}}}
+	lc := &logCounter{}
+	log.SetOutput(lc)
+	defer func() { c.Extra("bleve_log_lines_swallowed", lc.n) }()
+	r := &runner{c: c, st: &stats{layouts: map[string]int{}, segsSeen: map[int]int{}}, sem: make(chan struct{}, workers)}
 	tier := "quick"
 	if c.Thorough() {
 		tier = "thorough"
@@ -659,87 +683,118 @@ func run(c *core.Ctx) error {
 	c.Assume("TLC exhaustiveness holds for the bounds of the configurations named in tlc_runs; larger trees, deeper queries and longer histories are sampled (Engine B)")
 	c.Assume("concurrent merges racing with batches are the subject of C05, not modelled here: merges are atomic steps")
 
-	// 1. the model decides (step-wise loops and the index part), in parallel
-	// with the enumerations below
-	var mwg sync.WaitGroup
-	for _, mc := range [][2]string{
+	var wg sync.WaitGroup
+	var emu sync.Mutex
+	var firstErr error
+	fail := func(err error) {
+		if err != nil {
+			emu.Lock()
+			if firstErr == nil {
+				firstErr = err
+			}
+			emu.Unlock()
+		}
+	}
+	// C20_ONLY=mc,aq,ah,b restricts a run to some phases (development aid;
+	// the registered commands never set it)
+	only := os.Getenv("C20_ONLY")
+	phase := ""
+	par := func(f func() error) {
+		if only != "" && !strings.Contains(","+only+",", ","+phase+",") {
+			return
+		}
+		wg.Add(1)
+		go func() { defer wg.Done(); fail(f()) }()
+	}
+	if only != "" {
+		c.Assume("partial run: C20_ONLY=" + only)
+	}
+
+	// 1. the model decides: the step-wise loops and the index part
+	mcs := [][2]string{
 		{"NestedJoin", "NestedJoin_mc_" + tier + ".cfg"},
 		{"NestedFold", "NestedFold_mc_" + tier + ".cfg"},
 		{"NestedIndex", "NestedIndex_mc_" + tier + ".cfg"},
-	} {
-		mwg.Add(1)
-		go func(m, cfg string) {
-			defer mwg.Done()
-			c.ModelCheck(m, cfg, core.Workers(c.Pick(2, 4)), core.Timeout(25*time.Minute))
-		}(mc[0], mc[1])
 	}
 	if c.Thorough() {
-		mwg.Add(1)
-		go func() {
-			defer mwg.Done()
-			c.ModelCheck("NestedJoin", "NestedJoin_mc_thorough3.cfg", core.Workers(4), core.Timeout(25*time.Minute))
-		}()
+		mcs = append(mcs, [2]string{"NestedJoin", "NestedJoin_mc_thorough3.cfg"})
+	}
+	phase = "mc"
+	for _, mc := range mcs {
+		mc := mc
+		par(func() error {
+			c.ModelCheck(mc[0], mc[1], core.Workers(c.Pick(2, 3)), core.Timeout(28*time.Minute))
+			return nil
+		})
 	}
 
 	// 2. Engine A: trees x kinds x query shapes (the dump is at the same time
-	// the exhaustive check  as-coded = meaning  for the core class)
-	if err := r.engineAQuery("NestedQuery_mc_"+tier+".cfg", c.Pick(6, 8), false); err != nil {
-		mwg.Wait()
-		return err
-	}
-	// the classes with open findings, enumerated without invariant and
+	// the exhaustive check  as-coded = meaning  for the core class); then the
+	// classes with open findings, enumerated without that invariant and
 	// replayed like the others
-	if err := r.engineAQuery("NestedQuery_enum_gap.cfg", 2, false); err != nil {
-		mwg.Wait()
-		return err
-	}
-	// 3. Engine A: histories
-	if err := r.engineAHistory("NestedIndex_enum_"+tier+".cfg", c.Pick(4, 6)); err != nil {
-		mwg.Wait()
-		return err
-	}
-	// 4. TLC separates as-coded from meaning for the open classes; replay
-	var gwg sync.WaitGroup
-	for _, g := range []string{"NestedQuery_gap_boolx.cfg", "NestedQuery_gap_disjx.cfg", "NestedQuery_gap_parents.cfg"} {
-		gwg.Add(1)
-		go func(g string) { defer gwg.Done(); r.gapConfig(g) }(g)
-	}
-	gwg.Wait()
+	phase = "aq"
+	par(func() error {
+		if err := r.engineAQuery("NestedQuery_mc_"+tier+".cfg", c.Pick(5, 6)); err != nil {
+			return err
+		}
+		return r.engineAQuery("NestedQuery_enum_gap.cfg", 2)
+	})
+
+	// 3. Engine A: histories; 4. TLC separates as-coded from meaning for the
+	// open classes, the counterexample is replayed
+	phase = "ah"
+	par(func() error {
+		hcfgs := []string{"NestedIndex_enum_quick.cfg", "NestedIndex_enum_quick1.cfg"}
+		if c.Thorough() {
+			hcfgs = []string{"NestedIndex_enum_thorough.cfg", "NestedIndex_enum_quick1.cfg"}
+		}
+		for _, h := range hcfgs {
+			if err := r.engineAHistory(h, c.Pick(2, 3)); err != nil {
+				return err
+			}
+		}
+		for _, g := range []string{"NestedQuery_gap_boolx.cfg", "NestedQuery_gap_disjx.cfg", "NestedQuery_gap_parents.cfg"} {
+			r.gapConfig(g)
+		}
+		return nil
+	})
 
 	// 5. Engine B
-	recs, err := r.engineB(c.Pick(120, 900), c.Pick(10, 14), PlainNames, "plain", 12)
-	if err != nil {
-		mwg.Wait()
-		return err
-	}
-	coreRecs, gapRecs := split(recs)
-	if err := r.judge(coreRecs, 12); err != nil {
-		mwg.Wait()
-		return err
-	}
-	if len(gapRecs) > 40 {
-		gapRecs = gapRecs[:40]
-	}
-	if err := r.judge(gapRecs, 4); err != nil {
-		mwg.Wait()
-		return err
-	}
-	// sibling arrays whose names share a prefix ("a" / "ab")
-	crecs, err := r.engineB(c.Pick(6, 20), 8, CollideNames, "collide", 0)
-	if err != nil {
-		mwg.Wait()
-		return err
-	}
-	ccore, _ := split(crecs)
-	if err := r.judge(ccore, 3, "array-name-prefix"); err != nil {
-		mwg.Wait()
-		return err
+	var coreRecs, gapRecs, ccore []brec
+	phase = "b"
+	par(func() error {
+		recs, err := r.engineB(c.Pick(100, 900), c.Pick(10, 14), PlainNames, "plain", 12)
+		if err != nil {
+			return err
+		}
+		coreRecs, gapRecs = split(recs)
+		if err := r.judge(coreRecs, 12); err != nil {
+			return err
+		}
+		// the open classes are exhibited systematically by Engine A; here a
+		// few random ones suffice
+		if len(gapRecs) > 24 {
+			gapRecs = gapRecs[:24]
+		}
+		if err := r.judge(gapRecs, 2); err != nil {
+			return err
+		}
+		// sibling arrays whose names share a prefix ("a" / "ab")
+		crecs, err := r.engineB(c.Pick(6, 20), 8, CollideNames, "collide", 0)
+		if err != nil {
+			return err
+		}
+		ccore, _ = split(crecs)
+		return r.judge(ccore, 3, "array-name-prefix")
+	})
+	wg.Wait()
+	if firstErr != nil {
+		return firstErr
 	}
 	if len(coreRecs) > 0 {
 		b := coreRecs[len(coreRecs)/3]
 		c.Sample(map[string]any{"engine": "B", "record": b.rec})
 	}
-	mwg.Wait()
 	r.st.mu.Lock()
 	c.Extra("segments_at_search_time_histogram", r.st.segsSeen)
 	c.Extra("indexes_force_merged_last", r.st.merges)
